@@ -38,6 +38,7 @@ structure InvExcept (c : Ctl) (P : Slice → Prop) : Prop where
   smapSome : ∀ sv ∈ c.svcs, alookup sv.host c.smap = some sv
   smapOnly : ∀ h sv, alookup h c.smap = some sv → sv ∈ c.svcs ∧ sv.host = h
   index : ∀ h, IdxOK c h
+  nodup : ∀ h per, alookup h c.cache = some per → NodupKeys per
 
 /-- The invariant: caches = function of the objects in the stores. -/
 def Inv (c : Ctl) : Prop := InvExcept c (fun _ => False)
@@ -391,7 +392,7 @@ theorem sliceUpsert_inv (c : Ctl) (P : Slice → Prop) (old : Option Slice) (sl 
   | none =>
     have hns : ¬ Servable sl := (buildSlice_none_iff _ _ _ _ _).mp hb
     rw [sliceUpsert_none c old sl hb]
-    refine ⟨?_, ?_, ?_, ?_, ?_, ?_⟩
+    refine ⟨?_, ?_, ?_, ?_, ?_, ?_, hinv.nodup⟩
     · intro x hx hsx hnp
       have hne : x ≠ sl := fun h => hns (h ▸ hsx)
       have hnP : ¬ P x := fun hp => hnp ⟨hp, hne⟩
@@ -421,7 +422,7 @@ theorem sliceUpsert_inv (c : Ctl) (P : Slice → Prop) (old : Option Slice) (sl 
       rw [(buildSlice_none_iff _ _ _ _ _).mpr hns] at hb
       cases hb
     rw [sliceUpsert_some c old sl eps hb]
-    refine ⟨?_, ?_, ?_, ?_, ?_, ?_⟩
+    refine ⟨?_, ?_, ?_, ?_, ?_, ?_, fun h per hl => nodupKeys_cacheUpdate c.cache sl.host sl.name h eps per (hinv.nodup h) hl⟩
     · intro x hx hsx hnp
       by_cases hxs : x = sl
       · subst hxs
@@ -468,7 +469,7 @@ theorem sliceUpsert_inv (c : Ctl) (P : Slice → Prop) (old : Option Slice) (sl 
 theorem InvExcept.mono {c : Ctl} {P Q : Slice → Prop} (h : InvExcept c P)
     (hpq : ∀ x ∈ c.slices, P x → Q x) : InvExcept c Q :=
   ⟨fun x hx hs hq => h.fresh x hx hs (fun hp => hq (hpq x hx hp)), h.noForeign,
-   fun x hx hq => h.parked x hx (fun hp => hq (hpq x hx hp)), h.smapSome, h.smapOnly, h.index⟩
+   fun x hx hq => h.parked x hx (fun hp => hq (hpq x hx hp)), h.smapSome, h.smapOnly, h.index, h.nodup⟩
 
 theorem sliceUpsert_stores (c : Ctl) (old : Option Slice) (sl : Slice) :
     (sliceUpsert c old sl).slices = c.slices ∧ (sliceUpsert c old sl).svcs = c.svcs ∧
